@@ -270,6 +270,81 @@ package workers
 //@   loop 0 invariant !Gok && !Greset && wfManager(p.manager) && wfState(iterationState) && G2drops == old(G2drops)
 //@   ensures [consumed] !Gok
 //@
+//@ // ---- C02 / C03 under interleaving (variant @taken): the stop flag may be raised, and the pending count changed, by
+//@ // other threads between any two steps of a worker (fnspec stopEnv). A request the worker has taken (the pending
+//@ // count went down on its behalf) must be answered: the worker asks for an iteration id, and then either runs the
+//@ // iteration or meets the limit. Leaving between the take and the id request (for instance after re-reading the stop
+//@ // flag) loses the request: it is neither started nor reported dropped; leaving after the id was issued loses the id.
+//@ ghost var G2taken int
+//@ ghost var G2answered int
+//@ ghost var G3issuedHere int
+//@ ghost var G3ranHere int
+//@ fnspec stopEnv(p *TriggerPool)
+//@   modifies p.stopWorkers, p.jobsToExecute.num
+//@   ensures old(p.stopWorkers) ==> p.stopWorkers
+//@
+//@ func (*TriggerPool).run @taken
+//@   props C02 C03
+//@   thread-root
+//@   interference stopEnv(p)
+//@   requires p != nil && p.manager != nil && p.manager.activeScenario != nil && p.jobsToExecute != nil && iterationState != nil && iterationState.t != nil && startWg != nil && p.jobsAvailableCond != nil && p.workerCtxCancel != nil
+//@   dyncall workerCtxCancel : cancelFunc
+//@   ghost at entry : G2taken = 0 ; G2answered = 0 ; G3issuedHere = 0 ; G3ranHere = 0
+//@   ghost after call (*jobCounter).take : G2taken = G2taken + (ret0 ? 1 : 0)
+//@   ghost before call (*PoolManager).NextIteration : G2answered = G2answered + 1
+//@   ghost after call (*PoolManager).NextIteration : G3issuedHere = G3issuedHere + (ret1 == nil ? 1 : 0)
+//@   ghost before call (*ActiveScenario).Run : G3ranHere = G3ranHere + 1
+//@   loop 0 invariant G2taken == G2answered && G3issuedHere == G3ranHere && p.manager != nil && p.manager.activeScenario != nil && p.jobsToExecute != nil && iterationState.t != nil && p.jobsAvailableCond != nil && p.workerCtxCancel != nil
+//@   ensures [every-request-taken-is-answered] G2taken == G2answered
+//@   ensures [every-id-issued-is-run] G3issuedHere == G3ranHere
+//@
+//@ // one atomic operation each: a single step of this thread, the environment moves before and after it (at the caller)
+//@ func (*jobCounter).none @taken
+//@   props C02 C03
+//@   modifies nothing
+//@   ensures result == (w.num <= 0)
+//@
+//@ func (*jobCounter).take @taken
+//@   props C02 C03
+//@   modifies w.num
+//@   ensures w.num == old(w.num) - 1 && result == (w.num >= 0)
+//@
+//@ func (*TriggerPool).running @taken
+//@   props C02 C03
+//@   modifies nothing
+//@   ensures result == !p.stopWorkers
+//@
+//@ func (*TriggerPool).waitForNewJobs @taken
+//@   props C02 C03
+//@   interference stopEnv(p)
+//@   requires p != nil && p.jobsAvailableCond != nil && p.jobsToExecute != nil
+//@   modifies p.stopWorkers, p.jobsToExecute.num
+//@   ensures [stop-flag-only-raised] old(p.stopWorkers) ==> p.stopWorkers
+//@
+//@ fnspec stopEnvC(p *ContinuousPool)
+//@   modifies p.stopWorkers
+//@   ensures old(p.stopWorkers) ==> p.stopWorkers
+//@
+//@ func (*ContinuousPool).startWorker @taken
+//@   props C03
+//@   thread-root
+//@   interference stopEnvC(p)
+//@   requires p != nil && p.manager != nil && p.manager.activeScenario != nil && iterationState != nil && iterationState.t != nil && workersStarted != nil && p.workerCtxCancel != nil
+//@   dyncall workerCtxCancel : cancelFunc
+//@   ghost at entry : G3issuedHere = 0 ; G3ranHere = 0
+//@   ghost after call (*PoolManager).NextIteration : G3issuedHere = G3issuedHere + (ret1 == nil ? 1 : 0)
+//@   ghost before call (*ActiveScenario).Run : G3ranHere = G3ranHere + 1
+//@   loop 0 invariant G3issuedHere == G3ranHere && p.manager != nil && p.manager.activeScenario != nil && iterationState.t != nil && p.workerCtxCancel != nil
+//@   ensures [every-id-issued-is-run] G3issuedHere == G3ranHere
+//@
+//@ func (*ActiveScenario).Run @taken
+//@   props C02 C03
+//@   trusted frame taken from the verified base contract (its preconditions are discharged in the base pass of the worker loop); the iteration touches neither the pool nor the ghost counters of this pass
+//@   modifies state.t.failed, state.t.teardownFailed, state.t.teardownStack, state.t.tearingDown, Gmarks, Gpan, GbodyStart, GbodyEnd,
+//@            Gphase, GT0, GT1, Gfailed, GmarksAtBody, GnCleanups, Gclock, GMiter, Gcalled, GlastCalled,
+//@            s.progress.successfulIterationDurations.running, s.progress.failedIterationDurations.running, s.progress.droppedIterationCount,
+//@            NrecS, NrecF, NrecD, SumS, SumF, MinS, MinF, MaxS, MaxF
+//@
 //@ func (*ContinuousPool).startWorker
 //@   props C03 C04 C05 C07
 //@   thread-root
